@@ -382,6 +382,7 @@ def handle (ws : List String) : String :=
     "ok " ++ String.ofList (go.2.map fun b => if b then '1' else '0') ++ s!" depth={go.1.saved.length}"
   | "asg" :: rest => handleAsg rest
   | "convof" :: rest => handleConvOf rest
+  | "dflt" :: rest => handleDflt rest
   | ["hcstr", s] => match parseCps s with
     | some s => if hcString s then "1" else "0" | none => "bad"
   | "hist" :: n :: ops =>
